@@ -113,6 +113,22 @@ Theorem C01_rotate_right_spec en e n i : wf_expr e = true -> env_ok en e -> 0 <=
 Proof. exact (mk_rotate_right_spec en e n i). Qed.
 Print Assumptions C01_rotate_right_spec.
 
+(* e.matches(p1, ..., pn) on the normalised patterns: 1 iff some pattern matches e's bit pattern *)
+Theorem C01_matches_spec en e ps : wf_expr e = true -> env_ok en e ->
+  Forall (fun p => Z.of_nat (length p) = ewidth e) ps ->
+  wf_expr (mk_matches e ps) = true /\
+  denote en (mk_matches e ps) = b2z (existsb (fun p => pat_sem p (denote en e mod 2 ^ ewidth e)) ps).
+Proof. exact (mk_matches_spec en e ps). Qed.
+Print Assumptions C01_matches_spec.
+
+(* e.replicate(count): bit i of the result is bit (i mod len) of e *)
+Theorem C01_replicate_spec en e count i : wf_expr e = true -> env_ok en e -> 0 < ewidth e ->
+  0 <= i < Z.of_nat count * ewidth e ->
+  wf_expr (mk_replicate e count) = true /\
+  Z.testbit (denote en (mk_replicate e count)) i = Z.testbit (denote en e) (i mod ewidth e).
+Proof. exact (mk_replicate_spec en e count i). Qed.
+Print Assumptions C01_replicate_spec.
+
 Example C01_derived_example :
   let en : env := fun i => match i with O => -8 | _ => 2 end in
   let s := ESig 0 (Sh 4 true) in
